@@ -723,7 +723,7 @@ func oneHistory(c *vh.Ctx, i int) {
 				// than the published one names the observed order of invalidation / snapshot computation / publication
 				if rec, ok := s.in.writerOf(served[pi].ptr[d.Type][d.Name]); ok && got != nil {
 					if cause, detail := s.in.staleCause(rec, push); cause != "" {
-						k += ":cause=" + cause
+						k = fmt.Sprintf("hist:cause=%s:%s:%s", cause, class, d.Type)
 						d.Diff = detail + "; " + d.Diff
 					}
 				}
